@@ -410,6 +410,7 @@ type Obligation struct {
 	Pos    string
 	PathID int
 	Cover  bool // expected sat
+	PC0    []*Term // consistency guard (Kind consistent.*): the path condition before the contract's clauses were evaluated
 	Inputs []*Term
 }
 
